@@ -15,6 +15,8 @@ const (
 	zzFPNA             // PNA switches x Access-Control-Request-Private-Network
 	zzFLists           // expose / max-age / status x request kinds
 	zzFDispatch        // method bytes x presence and emptiness of Origin and ACRM
+	zzFSteps           // every pair of preflight steps: which pass and which fail, from small menus
+	zzFShortHdrs       // a discrete allow-list whose rendering fits into one symbolic field line
 	zzNumFocus
 )
 
@@ -187,6 +189,44 @@ func zzDrawScenario(enabled []int) zzScen {
 		am, hasM := zzValues(3, true)
 		s.q = zzMkRequest(zzString(7), o, am, nil, nil, hasO, hasM, false, false)
 		s.debug = zzBool()
+	case zzFShortHdrs:
+		l.fixReqHdrs = zzShortReqHdrMenu
+		s.c = zzDrawCfg(l)
+		s.c.cfg.Credentialed = zzBool()
+		s.q = zzMkRequest("OPTIONS", []string{zzAllowedOrigin}, []string{"GET"}, []string{zzString(5)}, nil, true, true, true, false)
+		s.debug = zzBool()
+	case zzFSteps:
+		// The byte-level scenarios pin every aspect but one, so a preflight in
+		// them fails at most at the step they vary. Here each of the four
+		// preflight steps (origin, private network, method, headers) passes or
+		// fails independently of the others: configuration and request are
+		// drawn from small menus, only the ACRPN value is symbolic.
+		l.methods = 3   // none / * / PUT,patch
+		l.reqHdrs = 5   // none / * / *+Authorization (both orders) / X-B,x-a
+		s.c = zzDrawCfg(l)
+		s.c.cfg.Credentialed = zzBool()
+		s.c.cfg.PrivateNetworkAccess = zzBool()
+		acrm := "PUT"
+		if zzChoose(2) == 1 {
+			acrm = "PURGE"
+		}
+		var acrh []string
+		hasH := true
+		switch zzChoose(3) {
+		case 0:
+			hasH = false
+		case 1:
+			acrh = []string{"x-a"}
+		default:
+			acrh = []string{"x-b", "x-q"}
+		}
+		var acrpn []string
+		hasP := zzChoose(2) == 1
+		if hasP {
+			acrpn = []string{zzString(5)}
+		}
+		s.q = zzMkRequest("OPTIONS", zzLiteralOrigin(), []string{acrm}, acrh, acrpn, true, true, hasH, hasP)
+		s.debug = zzBool()
 	}
 	m, err := NewMiddleware(s.c.cfg)
 	zzAssume(err == nil)
@@ -198,14 +238,14 @@ func zzDrawScenario(enabled []int) zzScen {
 	return s
 }
 
-var zzAllFocus = []int{zzFOrigin, zzFMethod, zzFHeaders, zzFPNA, zzFLists, zzFDispatch}
+var zzAllFocus = []int{zzFOrigin, zzFMethod, zzFHeaders, zzFPNA, zzFLists, zzFDispatch, zzFSteps}
 
 // zzVariant picks one of n harness-level variants. The full product
 // (variant x scenario) is explored for the scenarios with few request paths
 // and in the thorough tier; the byte-level scenarios of the quick tier draw
 // from the short list given for them (sum instead of product).
 func (s *zzScen) zzVariant(n int, forOrigin, forMethod, forHeaders []int) int {
-	rich := s.focus == zzFLists || s.focus == zzFPNA || s.focus == zzFDispatch
+	rich := s.focus == zzFLists || s.focus == zzFPNA || s.focus == zzFDispatch || s.focus == zzFSteps
 	if rich || zzTier() >= 1 {
 		return zzChoose(n)
 	}
